@@ -116,6 +116,19 @@ def random_history(rng, profile="alloc", length=40):
         if profile == "bank":
             return rng.choice([0, 1, 2, 5, 35, 36, 40, 127])
         return rng.choice(perc_keys if ch == 9 else mel_keys)
+    if profile == "alloc":
+        # prelude: controller set-ups that change how later notes behave (portamento, vibrato, soft pedal, ...)
+        for _ in range(rng.choice([0, 0, 1, 2, 4])):
+            ch = rng.choice(chans)
+            k = rng.randrange(8)
+            if k == 0: h += [{"e": "CC", "ch": ch, "n": 65, "v": 127}, {"e": "CC", "ch": ch, "n": 5, "v": rng.choice([1, 1, 20, 127])}]
+            elif k == 1: h.append({"e": "CC", "ch": ch, "n": 1, "v": rng.choice([64, 127])})
+            elif k == 2: h.append({"e": "CC", "ch": ch, "n": 67, "v": 127})
+            elif k == 3: h.append({"e": "ChanAT", "ch": ch, "v": 100})
+            elif k == 4: h.append({"e": "CC", "ch": ch, "n": 37, "v": rng.choice([1, 64])})
+            elif k == 5: h.append({"e": "NoteAT", "ch": ch, "k": key_for(ch), "v": 90})
+            elif k == 6: h.append({"e": "CC", "ch": ch, "n": 7, "v": rng.choice([0, 1, 127])})
+            else: h.append({"e": "CC", "ch": ch, "n": 74, "v": rng.choice([0, 63, 64])})
     for _ in range(length):
         ch = rng.choice(chans)
         r = rng.random()
@@ -133,7 +146,7 @@ def random_history(rng, profile="alloc", length=40):
             elif r < 0.84: h.append({"e": "Patch", "ch": ch, "p": rng.choice([0, 1, 2, 3])})
             elif r < 0.86: h.append({"e": "Panic"})
             elif r < 0.88: h.append({"e": "ResetState"})
-            elif r < 0.90: h.append({"e": "CC", "ch": ch, "n": rng.choice([1, 7, 10, 11, 65, 5, 67, 74]), "v": rng.choice([0, 64, 127])})
+            elif r < 0.90: h.append({"e": "CC", "ch": ch, "n": rng.choice([1, 7, 10, 11, 65, 65, 5, 5, 37, 67, 74, 6, 38, 100, 101, 98, 99]), "v": rng.choice([0, 1, 64, 127])})
             elif r < 0.92: h.append({"e": "Bend", "ch": ch, "v": rng.choice([0, 8192, 16383])})
             elif r < 0.935: h.append({"e": "SetArp", "v": rng.choice([0, 1])})
             elif r < 0.95: h.append({"e": "SetAlloc", "v": rng.choice([-1, 0, 1, 2])})
@@ -189,7 +202,8 @@ SMALL_ALPHABET = (
     [{"e": "CC", "ch": 0, "n": 66, "v": v} for v in (127, 0)] +
     [{"e": "CC", "ch": 0, "n": n, "v": 0} for n in (120, 121, 123)] +
     [{"e": "Panic"}, {"e": "ResetState"}, {"e": "Patch", "ch": 0, "p": 1}, {"e": "Patch", "ch": 0, "p": 2},
-     {"e": "Gen", "fr": 512}, {"e": "Gen", "fr": 4000}]
+     {"e": "Gen", "fr": 512}, {"e": "Gen", "fr": 4000},
+     {"e": "CC", "ch": 0, "n": 65, "v": 127}, {"e": "CC", "ch": 0, "n": 5, "v": 1}]
 )
 
 def exhaustive_histories(depth, lim=2, arp=0, alloc=-1, alphabet=None):
